@@ -526,8 +526,75 @@ fn settle(ctx: &Ctx, before: u64, expect: u64) -> u64 {
 
 // ----------------------------------------------------------------- printing
 
+/// A byte string as a Gallina term.  Short ones are list literals.  Long ones
+/// are cut: a stretch that repeats a short period many times becomes
+/// `(rep [period] count)` (`rep` is defined in Run_C20.v: the period
+/// concatenated count times), the rest literal chunks of at most 2000 bytes
+/// joined with `++` (coqc's parser overflows its stack on one literal of tens
+/// of thousands of elements, and spends ~0.1 ms per numeral).  The term is
+/// decoded again here and must give back the bytes.
+fn g_big(b: &[u8]) -> String {
+    if b.len() <= 512 {
+        return g_bytes(b);
+    }
+    enum Seg {
+        Lit(usize, usize),
+        Rep(usize, usize, usize), // start, period, count
+    }
+    let mut segs: Vec<Seg> = vec![];
+    let (mut i, mut lit) = (0usize, 0usize);
+    while i < b.len() {
+        let mut best = (0usize, 0usize);
+        for p in 1..=64usize {
+            if i + 2 * p > b.len() {
+                break;
+            }
+            let mut k = 1;
+            while i + (k + 1) * p <= b.len() && b[i + k * p..i + (k + 1) * p] == b[i..i + p] {
+                k += 1;
+            }
+            if k >= 2 && p * k > best.0 * best.1 {
+                best = (p, k);
+            }
+        }
+        if best.0 * best.1 >= 512 {
+            if lit < i {
+                segs.push(Seg::Lit(lit, i));
+            }
+            segs.push(Seg::Rep(i, best.0, best.1));
+            i += best.0 * best.1;
+            lit = i;
+        } else {
+            i += 1;
+        }
+    }
+    if lit < b.len() {
+        segs.push(Seg::Lit(lit, b.len()));
+    }
+    let mut parts: Vec<String> = vec![];
+    let mut back: Vec<u8> = Vec::with_capacity(b.len());
+    for sg in &segs {
+        match *sg {
+            Seg::Lit(a, z) => {
+                for ch in b[a..z].chunks(2000) {
+                    parts.push(g_bytes(ch));
+                    back.extend_from_slice(ch);
+                }
+            }
+            Seg::Rep(a, p, k) => {
+                parts.push(format!("(rep {} {})", g_bytes(&b[a..a + p]), k));
+                for _ in 0..k {
+                    back.extend_from_slice(&b[a..a + p]);
+                }
+            }
+        }
+    }
+    assert!(back == b, "g_big: term does not decode to the bytes");
+    format!("({})", parts.join(" ++ "))
+}
+
 fn g_hdr(n: &[u8], v: &[u8]) -> String {
-    format!("({},{})", g_bytes(n), g_bytes(v))
+    format!("({},{})", g_bytes(n), g_big(v))
 }
 
 fn emit_case(out: &mut dyn Write, group: &'static str, c: &Case, o: &Obs, tags: Vec<String>) {
@@ -954,6 +1021,234 @@ fn gen_cases(o: &Opts) -> Vec<(&'static str, Case, Vec<String>)> {
 
 // -------------------------------------------------------------------- main
 
+// ------------------------------------------------------ the large-scope slice
+
+const ROUND_SMALL: &[usize] = &[15, 16, 17, 31, 32, 33, 63, 64, 65, 127, 128, 129, 255, 256, 257];
+const ROUND_MID: &[usize] = &[1023, 1024, 1025, 4095, 4096, 4097, 8191, 8192, 8193];
+
+/// `n` bytes: random legal value bytes up to 4097; beyond that a random
+/// 61-byte period (coprime to SHA-1's block size) repeated, so that the Coq
+/// term stays small
+fn big_key(r: &mut Rng, n: usize) -> Vec<u8> {
+    let vis = |r: &mut Rng| 0x21 + r.below(0x7e - 0x21 + 1) as u8;
+    if n <= 4097 {
+        let mut k: Vec<u8> = (0..n).map(|_| value_byte(r)).collect();
+        if let Some(f) = k.first_mut() {
+            *f = vis(r);
+        }
+        if let Some(l) = k.last_mut() {
+            *l = vis(r);
+        }
+        k
+    } else {
+        let period: Vec<u8> = (0..61).map(|_| vis(r)).collect();
+        (0..n).map(|i| period[i % 61]).collect()
+    }
+}
+
+/// a list of `n` elements with `tok` at position `pos` (1-based), the others `filler`
+fn big_list(n: usize, pos: usize, tok: &str, filler: &str, sep: &str) -> Vec<u8> {
+    let mut v = Vec::new();
+    for i in 1..=n {
+        if i > 1 {
+            v.extend_from_slice(sep.as_bytes());
+        }
+        v.extend_from_slice(if i == pos { tok.as_bytes() } else { filler.as_bytes() });
+    }
+    v
+}
+
+const K16: &str = "x3JJHMbDL1EzLkh9GBhXDw==";
+
+fn base_headers(conn: Vec<u8>, upg: Vec<u8>, key: Vec<u8>) -> Vec<(Vec<u8>, Vec<u8>)> {
+    vec![
+        (b"Connection".to_vec(), conn),
+        (b"Upgrade".to_vec(), upg),
+        h("Sec-WebSocket-Version", "13"),
+        (b"Sec-WebSocket-Key".to_vec(), key),
+    ]
+}
+
+/// Deterministic cases that push every size-like dimension across the usual
+/// round numbers; `tags` name dimension and size (`large:<dimension>:<n>`).
+fn gen_large(o: &Opts) -> Vec<(&'static str, Case, Vec<String>)> {
+    let mut r = Rng::new(o.seed ^ 0x1a26e);
+    let mut v: Vec<(&'static str, Case, Vec<String>)> = vec![];
+    let t = o.thorough;
+    let push = |v: &mut Vec<(&'static str, Case, Vec<String>)>,
+                    r: &mut Rng,
+                    headers: Vec<(Vec<u8>, Vec<u8>)>,
+                    pieces: Option<(Vec<usize>, bool)>,
+                    tls: bool,
+                    dim: &str,
+                    n: usize| {
+        let (pieces, pipelined) = pieces.unwrap_or_else(|| (vec![r.below(40), r.below(40)], false));
+        let c = Case { headers, pseed: r.next(), pieces, pipelined, tls };
+        let mut tags = vec![format!("large:{}:{}", dim, n)];
+        if tls {
+            tags.push("transport:tls".into());
+        }
+        v.push(("large", c, tags));
+    };
+    let up = || b"Upgrade".to_vec();
+    let ws = || b"websocket".to_vec();
+    let k16 = || K16.as_bytes().to_vec();
+
+    // 1. length of Sec-WebSocket-Key (the Gallina SHA-1 digests all of it;
+    //    quick stops at 16385 bytes, thorough goes to 65537: ~40 us per byte
+    //    and twice per case under vm_compute)
+    let mut key_sizes: Vec<usize> = ROUND_SMALL.iter().chain(ROUND_MID).cloned().collect();
+    key_sizes.push(16385);
+    if t {
+        key_sizes.push(65537);
+    }
+    for &n in &key_sizes {
+        let k = big_key(&mut r, n);
+        push(&mut v, &mut r, base_headers(up(), ws(), k), None, false, "key-length", n);
+        if t || [64, 257, 1025, 4097, 8193].contains(&n) {
+            let k = big_key(&mut r, n);
+            push(&mut v, &mut r, base_headers(up(), ws(), k), None, true, "key-length", n);
+        }
+    }
+
+    // 2. number of elements of the Connection / Upgrade lists, wanted one last
+    let elem_sizes: Vec<usize> = if t {
+        ROUND_SMALL.iter().chain(ROUND_MID).cloned().collect()
+    } else {
+        vec![16, 17, 257, 1025, 4097, 8193]
+    };
+    for (j, &n) in elem_sizes.iter().enumerate() {
+        let conn = big_list(n, n, "Upgrade", "x-opt", if j % 2 == 0 { ", " } else { "," });
+        push(&mut v, &mut r, base_headers(conn, ws(), k16()), None, j % 3 == 2, "connection-elements", n);
+        if t || [17, 257, 4097].contains(&n) {
+            let upg = big_list(n, n, "websocket", "h2c", if j % 2 == 0 { "," } else { " ,\t" });
+            push(&mut v, &mut r, base_headers(up(), upg, k16()), None, j % 3 == 0, "upgrade-elements", n);
+        }
+    }
+    //    position of the wanted element (first, 16th, 17th, 257th, last)
+    let npos = if t { 8193 } else { 1025 };
+    for (j, &pos) in [1usize, 16, 17, 257, npos].iter().enumerate() {
+        let conn = big_list(npos, pos, "upgrade", "keep-alive", ", ");
+        push(&mut v, &mut r, base_headers(conn, ws(), k16()), None, j % 2 == 1, "connection-element-position", pos);
+        let upg = big_list(npos, pos, "WebSocket", "x/1", ",");
+        push(&mut v, &mut r, base_headers(up(), upg, k16()), None, j % 2 == 0, "upgrade-element-position", pos);
+    }
+    //    a long list without the wanted element: refused
+    let conn = big_list(npos, 0, "upgrade", "upgrades", ", ");
+    push(&mut v, &mut r, base_headers(conn, ws(), k16()), None, false, "connection-elements-without-token", npos);
+
+    // 3. repeated header lines; with Host the request has (lines + 3) + 1 fields
+    let line_counts: Vec<usize> = if t { vec![15, 16, 17, 31, 32, 33, 63, 64, 65, 95, 96] } else { vec![17, 65, 96] };
+    for (j, &n) in line_counts.iter().enumerate() {
+        for (name, tok, other, dim) in
+            [("Connection", "Upgrade", "keep-alive", "connection-lines"), ("Upgrade", "websocket", "h2c", "upgrade-lines")]
+        {
+            for wanted_first in [false, true] {
+                let mut hs = vec![];
+                for i in 0..n {
+                    let is_wanted = if wanted_first { i == 0 } else { i == n - 1 };
+                    hs.push(h(name, if is_wanted { tok } else { other }));
+                }
+                if name == "Connection" {
+                    hs.push(h("Upgrade", "websocket"));
+                } else {
+                    hs.push(h("Connection", "Upgrade"));
+                }
+                hs.push(h("Sec-WebSocket-Version", "13"));
+                hs.push(h("Sec-WebSocket-Key", K16));
+                push(&mut v, &mut r, hs, None, (j + wanted_first as usize) % 2 == 1, dim, n);
+            }
+        }
+        // n Version lines, all "13"; n Key lines, all the same; n Protocol lines
+        for (name, val, dim) in [
+            ("Sec-WebSocket-Version", "13", "version-lines"),
+            ("Sec-WebSocket-Key", K16, "key-lines"),
+            ("Sec-WebSocket-Protocol", "chat", "protocol-lines"),
+        ] {
+            let mut hs = vec![h("Connection", "Upgrade"), h("Upgrade", "websocket")];
+            if name != "Sec-WebSocket-Version" {
+                hs.push(h("Sec-WebSocket-Version", "13"));
+            }
+            if name != "Sec-WebSocket-Key" {
+                hs.push(h("Sec-WebSocket-Key", K16));
+            }
+            let extra = 4 - hs.len(); // so that every variant has n + 3 lines
+            for _ in 0..n + extra - 1 {
+                hs.push(h(name, val));
+            }
+            push(&mut v, &mut r, hs, None, j % 2 == 0, dim, n);
+        }
+    }
+
+    // 4. total number of request fields: Host + these.  hyper's parser holds
+    //    100; one more is its 431, whatever the fields say
+    let totals: Vec<usize> = if t { vec![97, 98, 99, 100, 101, 128, 200] } else { vec![98, 99, 100, 101] };
+    for &n in &totals {
+        for tls in [false, true] {
+            let mut hs = base_headers(up(), ws(), k16());
+            for i in 0..n - 4 {
+                hs.insert(1 + i % 3, (format!("X-Fill-{}", i).into_bytes(), b"upgrade, websocket".to_vec()));
+            }
+            push(&mut v, &mut r, hs, None, tls, "request-fields", n + 1);
+        }
+    }
+
+    // 5. length of one list element, and of the whitespace around elements
+    let lens: Vec<usize> = if t { ROUND_SMALL.iter().chain(ROUND_MID).cloned().chain([65537]).collect() } else { vec![257, 4097, 8193] };
+    for (j, &n) in lens.iter().enumerate() {
+        let mut conn = vec![b'x'; n];
+        conn.extend_from_slice(b", Upgrade");
+        push(&mut v, &mut r, base_headers(conn, ws(), k16()), None, j % 2 == 0, "element-length", n);
+        let mut upg = b"h2c,".to_vec();
+        upg.extend(std::iter::repeat(if j % 2 == 0 { b' ' } else { b'\t' }).take(n));
+        upg.extend_from_slice(b"websocket");
+        upg.extend(std::iter::repeat(b' ').take(n));
+        upg.extend_from_slice(b",x");
+        push(&mut v, &mut r, base_headers(up(), upg, k16()), None, j % 2 == 1, "ows-length", n);
+    }
+    //    an element that is the token followed by a long tail: not the token
+    let mut conn = b"Upgrade".to_vec();
+    conn.extend(std::iter::repeat(b'e').take(4097));
+    push(&mut v, &mut r, base_headers(conn, ws(), k16()), None, false, "element-length-not-token", 4104);
+
+    // 6. payload through the pipe, one write
+    let mut pays: Vec<usize> = vec![63 * 1024, 65535, 65536, 65537, 65 * 1024, (1 << 20) - 1, 1 << 20, (1 << 20) + 1];
+    if t {
+        pays.extend([(1 << 24) - 1, 1 << 24, (1 << 24) + 1]);
+    }
+    for &n in &pays {
+        push(&mut v, &mut r, base_headers(up(), ws(), k16()), Some((vec![n], false)), false, "payload-bytes", n);
+        if t || [65537, (1 << 20) + 1].contains(&n) {
+            push(&mut v, &mut r, base_headers(up(), ws(), k16()), Some((vec![n], false)), true, "payload-bytes", n);
+        }
+    }
+
+    // 7. number of writes the payload is cut into
+    let mut writes: Vec<(usize, usize)> = vec![(4097, 1), (1025, 17), (257, 4097)];
+    if t {
+        writes.extend([(16385, 1), (65537, 1), (4097, 257)]);
+    }
+    for &(n, each) in &writes {
+        for tls in [false, true] {
+            push(&mut v, &mut r, base_headers(up(), ws(), k16()), Some((vec![each; n], false)), tls, "payload-writes", n);
+        }
+    }
+
+    // 8. bytes sent in the same write as the handshake
+    let mut early: Vec<usize> = vec![0, 1, 4096, 65537];
+    if t {
+        early.extend([15, 17, 4095, 4097, 8193, 16385, 65535, 65536, 262145]);
+    }
+    for &n in &early {
+        for tls in [false, true] {
+            push(&mut v, &mut r, base_headers(up(), ws(), k16()), Some((vec![n, 100, 1], true)), tls, "early-bytes", n);
+        }
+    }
+    //    ... and after a refusal (no key): the early bytes are not a request
+    push(&mut v, &mut r, base_headers(up(), ws(), k16())[..3].to_vec(), Some((vec![4096], true)), false, "early-bytes-refused", 4096);
+    v
+}
+
 /// The scenarios repeated over TLS: drawn from the same generator (another
 /// seed), every group represented — every key length once, the grid's
 /// no-/one-element-wrong corner and a stride through the rest, spellings,
@@ -1025,7 +1320,22 @@ fn main() {
             None => {
                 let mut v = gen_cases(opts);
                 v.extend(gen_cases_tls(opts));
-                v
+                // the large-scope cases are dealt evenly among the others, so
+                // that the driver's contiguous Coq shards share their cost
+                let large = gen_large(opts);
+                let stride = (v.len() / (large.len() + 1)).max(1);
+                let mut all = Vec::with_capacity(v.len() + large.len());
+                let mut large = large.into_iter();
+                for (i, x) in v.into_iter().enumerate() {
+                    if i % stride == stride - 1 {
+                        if let Some(l) = large.next() {
+                            all.push(l);
+                        }
+                    }
+                    all.push(x);
+                }
+                all.extend(large);
+                all
             }
         };
         for (_, c, tags) in cases.iter_mut() {
